@@ -74,4 +74,4 @@ def replay_finding(ctx, f):
     from ..core import Report
     rep = Report()
     check_graph(ctx, rep, f['replay']['spec'], f.get('class', {}).get('stream', 'replay'))
-    return any(d['kind'] == f['kind'] for d in rep.disagreements)
+    return any(d['kind'] in f.get('kinds', [f.get('kind')]) for d in rep.disagreements)
